@@ -177,6 +177,13 @@ func (ph *ptraceHandle) handle(pid int, wstatus unix.WaitStatus) (status runner.
 			exitStatus = int(sig)
 			return
 		}
+		if sig == unix.SIGSYS {
+			// a secondary process was killed by the seccomp filter: the program made a
+			// disallowed syscall, whichever of its processes did it
+			status = runner.StatusDisallowedSyscall
+			exitStatus = int(sig)
+			return
+		}
 		unix.PtraceCont(pid, int(sig))
 
 	case wstatus.Stopped():
